@@ -65,14 +65,14 @@ RANDOM_STRINGS = {'quick': 80000, 'thorough': 4000000}
 HISTORIES = {'quick': 20000, 'thorough': 1200000}
 DPKG_SAMPLE = 300
 
-FLOORS = {'quick': {'nontrivial': 50000,
-                    'monitors': {'M.construct': 60000, 'M.assign': 25000, 'M.rollback': 8000, 'K7': 100000, 'K7.raise': 20000},
-                    'counters': {'construct:accept/accepted': 5000, 'construct:reject/rejected': 40000,
-                                 'assign:ok': 10000, 'assign:raised': 8000}},
-          'thorough': {'nontrivial': 1000000,
-                       'monitors': {'M.construct': 1000000, 'M.assign': 800000, 'M.rollback': 250000, 'K7': 3000000, 'K7.raise': 600000},
-                       'counters': {'construct:accept/accepted': 100000, 'construct:reject/rejected': 600000,
-                                    'assign:ok': 300000, 'assign:raised': 250000}}}
+FLOORS = {'quick': {'nontrivial': 70000,
+                    'monitors': {'M.construct': 70000, 'M.assign': 30000, 'M.rollback': 10000, 'K7': 150000, 'K7.raise': 20000},
+                    'counters': {'construct:accept/accepted': 17000, 'construct:reject/rejected': 44000,
+                                 'assign:ok': 20000, 'assign:raised': 10000}},
+          'thorough': {'nontrivial': 2000000,
+                       'monitors': {'M.construct': 2300000, 'M.assign': 1800000, 'M.rollback': 750000, 'K7': 6500000, 'K7.raise': 1400000},
+                       'counters': {'construct:accept/accepted': 700000, 'construct:reject/rejected': 1300000,
+                                    'assign:ok': 1000000, 'assign:raised': 750000}}}
 
 ATTRS = ('full_version', 'epoch', 'upstream_version', 'debian_revision', 'debian_version')
 UNSET = '<unset>'
@@ -604,9 +604,9 @@ def run_case(ctx, case):
 
 LEVEL_TEXT = ('Runtime monitoring: every string of length <= 4 (quick) / <= 5 (thorough) over a 14-symbol alphabet (version '
               'characters plus space, LF, "_", non-ASCII letter and digits), every string of length 5..7 / 6..8 over "1 a : -", '
-              'and 6e4 / 1.5e6 seeded structured hostile strings are pushed through the live Version/BaseVersion constructor and '
+              'and 8e4 / 4e6 seeded structured hostile strings are pushed through the live Version/BaseVersion constructor and '
               'judged by an independent three-way Policy-5.6.12 classifier (accept / reject / unspecified) and the Policy '
-              'decomposition; 1.2e4 / 4e5 assignment histories (<= 6 assignments of valid and invalid values incl. None and '
+              'decomposition; 2e4 / 1.2e6 assignment histories (<= 6 assignments of valid and invalid values incl. None and '
               'ints to all five magic attributes) run against a 3-tuple model, with a contract on BaseVersion.__setattr__ '
               '(normal and exceptional exit) watching every call.  Held-on-observed, not a proof: reach is the enumerated '
               'sub-spaces plus the sampled strings and histories.')
